@@ -214,7 +214,27 @@ def _d4(ctx):
     pe = defs.get("persistent")
     ok = pe is not None and "t.persistent" in norm(pe) and "self.tensor_accesses" in norm(pe)
     ctx.check(ok, R, fi, pe if pe is not None else fi.node, "Persistent is not derived from the accesses' persistent flag", "Persistent from the access flag")
-    ctx.floor(R, 12)
+    # every set published for this Einsum lives in the Einsum's own space
+    n_sets = 0
+    for c in fi.calls("InvertibleSet"):
+        spreads = [norm(k.value) for k in c.keywords if k.arg is None]
+        fs = kwarg(c, "full_space")
+        ok = any(x in ("kwargs_tensors", "kwargs_rank_variables") for x in spreads) or (fs is not None and norm(fs) in ("all_", "all_rank_variables"))
+        n_sets += 1
+        ctx.check(ok, R, fi, c, f"`{norm(c)[:80]}` is not built over the Einsum's tensor / rank-variable space: its complement and its mixing with the named sets use another universe", "built over the Einsum's own space", nontrivial=False)
+    for c in fi.calls("Rename"):
+        src = kwarg(c, "source")
+        if src is None:
+            continue
+        n_sets += 1
+        ok = (isinstance(src, ast.Call) and call_name(src) == "InvertibleSet") or (isinstance(src, ast.Name) and src.id in ("v", "k"))
+        if isinstance(src, ast.Name) and not ok:
+            d = defs.get(src.id)
+            ok = d is not None and isinstance(d, ast.Call) and call_name(d) == "InvertibleSet"
+        ctx.check(ok, R, fi, c, f"a rename is published with source `{norm(src)[:70]}`, which is not a set built in this Einsum's space (e.g. taken from empty_renames(), whose full space is empty): "
+                                f"`~name` and `All - name` then evaluate to the wrong tensors", "rename source built in this Einsum's space")
+    ctx.check(not fi.calls("empty_renames"), R, fi, (fi.calls("empty_renames") or [fi.node])[0], "sets from Einsum.empty_renames() (empty full space) are mixed into an evaluated Einsum", "no empty-space sets used")
+    ctx.floor(R, 18)
 
 
 def check(ctx):
@@ -240,6 +260,7 @@ VARIANTS = [
     {"kind": "F", "name": "intermediates-or", "rule": "C22-D4", "edits": [(WL, "            if workload.einsums_with_tensor_as_input(t)\n            and workload.einsums_with_tensor_as_output(t)", "            if workload.einsums_with_tensor_as_input(t)\n            or workload.einsums_with_tensor_as_output(t)")]},
     {"kind": "F", "name": "nothing-is-all", "rule": "C22-D4", "edits": [(WL, '"Nothing": InvertibleSet(instance=(), **kwargs_tensors),\n            "Inputs": InvertibleSet(instance=inputs', '"Nothing": InvertibleSet(instance=all_, **kwargs_tensors),\n            "Inputs": InvertibleSet(instance=inputs')]},
     {"kind": "F", "name": "full-space-inputs-only", "rule": "C22-D4", "edits": [(WL, "        kwargs_tensors = dict(\n            full_space=all_,", "        kwargs_tensors = dict(\n            full_space=inputs,")]},
+    {"kind": "F", "name": "placeholder-from-empty-renames", "rule": "C22-D4", "edits": [(WL, "                evaluated.renames.append(\n                    Rename(name=t, source=InvertibleSet(instance=(), **kwargs_tensors))\n                )", "                evaluated.renames.append(Rename(name=t, source=self.empty_renames()[\"Nothing\"]))")]},
     {"kind": "S", "name": "commuted-and", "edits": [(SE, "        return self.to_my_space(a & b)", "        return self.to_my_space(b & a)")]},
     {"kind": "S", "name": "all-outputs-or-inputs", "edits": [(WL, "        all_ = inputs | outputs\n", "        all_ = outputs | inputs\n")]},
 ]
